@@ -368,6 +368,15 @@ class Exec:
                 r["bytes"][p.off + i] = (val >> (8 * i)) & 0xff
             else:
                 r["bytes"][p.off + i] = simp(z3.Extract(8 * i + 7, 8 * i, val))
+        # no-escape clients: the secret reaches memory through ordinary stores of vh_secret8() values
+        if getattr(self, "nsec", 0) and not is_c(val) and "sec8_" in str(val)[:4000]:
+            fi = getattr(self, "fill_info", None)
+            if not fi or fi.get("by") != "stores":
+                self.fill_info = {"reg": p.reg, "off": p.off, "n": nbytes, "syms": [], "by": "stores"}
+            elif fi["reg"] == p.reg:
+                lo = min(fi["off"], p.off)
+                hi = max(fi["off"] + fi["n"], p.off + nbytes)
+                fi["off"], fi["n"] = lo, hi - lo
 
     # ---- findings / solver
     def finding(self, kind, msg, **kw):
@@ -948,6 +957,15 @@ class Exec:
                     pc.append(s != 0)
             self.fill_info = {"reg": p.reg, "off": p.off, "n": n, "syms": syms}
             return None
+        if name == "vh_secret8":  # opaque producer of one secret byte (no-escape clients)
+            k = getattr(self, "nsec", 0)
+            self.nsec = k + 1
+            sb = z3.BitVec("sec8_%d" % k, 8)
+            if getattr(self, "nonzero_fill", False):
+                pc.append(sb != 0)
+            return sb
+        if name == "vh_use":  # opaque consumer of a scalar
+            return None
         if name == "vh_value":  # opaque symbolic fill value
             return z3.BitVec("fillvalue", 32)
         if name == "malloc" and name not in self.m.funcs:
@@ -1019,8 +1037,10 @@ def main():
             if ex.fill_info and not ex.erase_checks:
                 ex.on_lifetime_end(ex.fill_info["reg"], "return")
             if not ex.fill_info:
-                raise Unsupported("client never called vh_fill")
+                raise Unsupported("the secret never reached memory (no vh_fill, no store of a vh_secret8 value)")
             fi = ex.fill_info
+            if fi.get("by") == "stores":  # byte i of the buffer received the i-th secret byte
+                fi["syms"] = [z3.BitVec("sec8_%d" % (fi["off"] + i), 8) for i in range(fi["n"])]
             val = z3.BitVec("fillvalue", 32)
             bad = []
             for why, snapshot in ex.erase_checks:
